@@ -162,8 +162,45 @@ def check_document_shape(ctx):
     ctx.need(nsites >= 2, "no call site hands a document sub-value to the mapping-consuming functions: vanished anchors")
 
 
+def check_field_paths(ctx):
+    """A field only knows its place in the schema.  A ValidationError raised from a field method with an explicit ref_path= that is
+    built from the *field's* _ref_path (the schema chain) reports `endpoint[1]` for a field that lives in `a.servers[2]`; the
+    override has to start from the configuration the method was given (cfg._ref_path / a proxy's owner path) -- or not be given
+    at all (the default path is computed from the configuration)."""
+    an, model = ctx.an, ctx.model
+    Base = model.cls("BaseField")
+    n = 0
+    for fn in an.fns():
+        if fn.cls is None or not fn.cls.is_subclass_of(Base) or isinstance(fn.node, ast.Lambda):
+            continue
+        for x in ast.walk(fn.node):
+            if not (isinstance(x, ast.Call) and isinstance(x.func, ast.Name) and x.func.id == "ValidationError"):
+                continue
+            if model.enclosing_function(x) is not fn:
+                continue
+            rp = [k.value for k in x.keywords if k.arg == "ref_path"] + (list(x.args[3:4]) if len(x.args) >= 4 else [])
+            for e in rp:
+                n += 1
+                srcs = [e] + [pl for k_, pl in (value_sources(fn, e, None) if isinstance(e, ast.Name) else []) if k_ == "expr" and isinstance(pl, ast.AST)]
+                schema_chain = any(isinstance(y, ast.Attribute) and y.attr in ("_ref_path", "ref_path") and isinstance(y.value, ast.Name)
+                                   and y.value.id == fn.self_name for s_ in srcs for y in ast.walk(s_))
+                ctx.ob("path.field-override-from-config", fn, x, not schema_chain,
+                       "the path override does not start from the field's place in the schema" if not schema_chain else
+                       "%s raises a ValidationError whose ref_path is built from the field's own _ref_path (its place in the schema): for a "
+                       "field of a list item or of a config type the error names a truncated path" % fn.qualname, node=x)
+    if n == 0:
+        ctx.ob("path.field-override-from-config", Base, "no field method overrides ref_path", True, "field methods leave the path to the configuration", nontrivial=False)
+
+
 def check(ctx):
     an, model = ctx.an, ctx.model
+    check_field_paths(ctx)
+    # shared clause (C01): the path of an entry of a typed dict / list is computed from the proxy's owner -- the proxy a field
+    # hands back is the one built for the configuration that is being assigned to, not one that belongs to another configuration
+    from .c01 import check_container_validators
+    sub0 = type(ctx)(ctx.pid, ctx.an, ctx.tier)
+    check_container_validators(sub0)
+    ctx.obligations.extend(o for o in sub0.obligations if "container.returns-own-proxy" in o.rule)
     VE = model.cls("ValidationError")
     ctx.ob("validation-error.is-valueerror", VE, "class ValidationError(ValueError)", VE.is_subclass_of("ValueError"),
            "ValidationError derives from ValueError" if VE.is_subclass_of("ValueError") else "ValidationError is no longer a ValueError")
